@@ -118,12 +118,42 @@ class World:
             self.twin.data_received(b"\x18\x42")
         self.rec = Recorder()
         self.proto = AshProtocol(self.rec)
-        self.tr = FakeTransport(None)
+        self.loop = None
+        self.ctx = (params or {}).get("ctx")
+        if self.ctx:
+            # the transmit side of the same object is busy (a host DATA frame outstanding) or has given up (retry budget used up):
+            # what the receiver does with the peer's frames must not depend on it
+            from mc.env.ashworld import patch_time
+            from mc.vloop import VLoop
+
+            self.loop = VLoop().enter()
+            patch_time(self.loop)
+        self.tr = FakeTransport(self.loop, self.proto if self.loop else None)
         self.proto.connection_made(self.tr)
         self.rec.events.clear()
         self.ref = ref_ash.RefReceiver()
         self.viol: list[str] = []
         self.n = 0
+        if self.ctx:
+            self.loop.settle()
+            for k in range((params or {}).get("tx_prior", 0)):          # acknowledged host sends first: the outstanding frame is number k
+                t = self.loop.create_task(self.proto.send_data(bytes([0x21, k, 0x22, 0x23])))
+                self.loop.settle()
+                self.proto.data_received(ref_ash.wire(ref_ash.enc_ack((k + 1) % 8)))
+                self.loop.settle()
+            for k in range((params or {}).get("rx_prior", 0)):
+                self.feed(("DATA", self.ref.expected, 0, 0))
+            self.tx_task = self.loop.create_task(self.proto.send_data(b"\x31\x32\x33\x34"))
+            self.tx_task.add_done_callback(lambda t: t.cancelled() or t.exception())
+            self.loop.settle()
+            if self.ctx == "exhausted":
+                for _ in range(12):
+                    if self.tx_task.done():
+                        break
+                    self.loop.fire_timers()
+                    self.loop.settle()
+            self.rec.events.clear()
+            del self.tr.writes[:]
 
     def enabled(self):
         return [(e, 0) for e in self.EVENTS]
@@ -135,10 +165,14 @@ class World:
         self.viol = []
         try:
             self.proto.data_received(data)
+            if self.loop is not None:
+                self.loop.settle()
         except Exception as e:  # noqa
             self.viol.append(f"data_received raised {type(e).__name__}: {e}")
         ups = [e for e in self.rec.events[n_up:]]
         wframes = split_wire(b"".join(w for _, w in self.tr.writes[n_w:]))
+        if self.ctx:
+            wframes = [f for f in wframes if f[0] != "DATA"]      # (repeats of the outstanding host frame are the transmit side's business)
         exp = self.ref.feed(data)
         self.viol.extend(f"{ev}: {m}" for m in check_step(exp, ups, wframes))
         return ups, wframes
@@ -153,7 +187,38 @@ class World:
         return (scalar_state(self.proto, skip=diagnostic()), self.ref.expected)
 
     def close(self):
-        pass
+        if self.loop is not None:
+            self.loop.shutdown()
+            self.loop = None
+
+
+def tx_context_job(args):
+    """Every single frame of the alphabet, and every pair of the relative alphabet, fed while the transmit side of the same
+    protocol object is busy / has given up."""
+    ctx, tx_prior, rx_prior = args
+    out = []
+    n = 0
+    singles = [[ev] for ev in World.EVENTS]
+    for seq in singles + [list(p) for p in itertools.product(REDUCED, repeat=2)]:
+        w = World({"ctx": ctx, "tx_prior": tx_prior, "rx_prior": rx_prior})
+        hist = []
+        try:
+            if w.viol:
+                out.append((f"C04|{ctx}|setup", f"while setting up the context ({ctx}): {w.viol[0]}", {"world": "c04", "ctx": ctx, "tx_prior": tx_prior, "rx_prior": rx_prior, "events": []}))
+                break
+            for item in seq:
+                ev = reduced_event(item, w.ref.expected) if isinstance(item, str) else item
+                w.feed(ev)
+                hist.append(list(ev))
+                if w.viol:
+                    what = "a host DATA frame outstanding" if ctx == "inflight" else "the host's retry budget used up (link failed)"
+                    out.append((f"C04|{ctx}|{ev[0]}|{w.viol[0].split(':', 1)[-1].strip()[:50]}", f"with {what} (host frame number {tx_prior % 8}): {w.viol[0]}",
+                                {"world": "c04", "ctx": ctx, "tx_prior": tx_prior, "rx_prior": rx_prior, "events": list(hist)}))
+                    break
+            n += 1
+        finally:
+            w.close()
+    return n, out[:6]
 
 
 def reduced_event(name, expected):
@@ -202,6 +267,15 @@ def main(tier: str) -> int:
                                   {"world": "c04", "events": list(hist), "twin": True})
                 break
         twin_runs += 1
+
+    ctx_runs = 0
+    jobs = [(ctx, txp, rxp) for ctx in ("inflight", "exhausted") for txp, rxp in ((0, 0), (5, 3), (2, 7), (7, 1))]
+    if tier != "quick":
+        jobs = [(ctx, txp, rxp) for ctx in ("inflight", "exhausted") for txp in range(8) for rxp in range(8)]
+    for cnt, errs in explore.pool().imap_unordered(tx_context_job, jobs):
+        ctx_runs += cnt
+        for key, msg, rp in errs:
+            rep.add_violation(key, msg, rp)
 
     if rep.violations:
         # already refuted by the short sequences: do not attempt the closure (state leaking between objects also leaks between
@@ -279,8 +353,9 @@ def main(tier: str) -> int:
     rep.coverage = {
         "states": g.states,
         "transitions": g.transitions,
-        "traces_validated_against_impl": g.transitions + seqs + long_runs + twin_runs,
+        "traces_validated_against_impl": g.transitions + seqs + long_runs + twin_runs + ctx_runs,
         "twin_instance_sequences": twin_runs,
+        "tx_context_sequences": ctx_runs,
         "closed": g.closed,
         "exhaustive": True,
         "alphabet_size": len(World.EVENTS),
@@ -300,7 +375,7 @@ def main(tier: str) -> int:
 
 
 def replay(data) -> int:
-    w = World({"twin": True} if data.get("twin") else None)
+    w = World({"twin": True} if data.get("twin") else ({"ctx": data["ctx"], "tx_prior": data["tx_prior"], "rx_prior": data["rx_prior"]} if data.get("ctx") else None))
     bad = 0
     for ev in data["events"]:
         ups, wr = w.feed(tuple(ev))
